@@ -62,6 +62,16 @@ Proof. intros t n. split; [apply qwalk_complete|apply qwalk_sound]. Qed.
 Theorem C15_collect_visits_exponential_refuted : forall k, 2 ^ k <= visits_pinned em (union_chain k).
 Proof. exact (collect_visits_exponential_refuted em eq_refl). Qed.
 
+(* Historical: EXPLAIN q / DESCRIBE q was parsed to DescribeStatement{TableName: "SELECT"} — the query parsed and thrown
+   away ([explain_pinned]): nothing written in q was extracted.  Repaired in /repo c61589e (DescribeStatement.Query);
+   [MExplain] is prescribed with the query since and covered by the exactness theorems above. *)
+Theorem C15_explain_query_dropped_refuted :
+  exists q t c f,
+    In t (tables_written (MExplain q)) /\ In c (columns_written (MExplain q)) /\ In f (functions_written (MExplain q)) /\
+    extract_tables em [explain_pinned] = [] /\ extract_columns em [explain_pinned] = [] /\
+    extract_functions em [explain_pinned] = [].
+Proof. exact (explain_names_dropped em). Qed.
+
 Print Assumptions C15_tables_exact.
 Print Assumptions C15_columns_exact.
 Print Assumptions C15_functions_exact.
@@ -72,6 +82,7 @@ Print Assumptions C15_dedup.
 Print Assumptions C15_collect_visits_linear.
 Print Assumptions C15_traversal_complete.
 Print Assumptions C15_collect_visits_exponential_refuted.
+Print Assumptions C15_explain_query_dropped_refuted.
 
 (* ---- non-vacuity: a statement with aliases, a derived table, three joins (two synthetic left names), a CTE
    referenced in FROM, duplicate names, string contents that look like names ---- *)
